@@ -520,8 +520,19 @@ def install(I):
             raise Unsupported("np.sum of objects")
         if arr.items is not None and len(arr.items) == 0:
             return XR.const(0, npk=True)   # np.sum([]) is float 0.0
-        if arr.items is None and arr.kind == "bool" and skolem_valid(lambda i: mkbool(bnot(bterm(arr.at(i)))), arr.length, "nonetrue"):
-            return 0
+        if arr.items is None and arr.kind == "bool":
+            if skolem_valid(lambda i: mkbool(bnot(bterm(arr.at(i)))), arr.length, "nonetrue"):
+                return 0
+            # count of true entries, axiomatised: 0 <= c <= n;  c = 0 => no entry true;  c > 0 => some entry true
+            c = ctx()
+            cnt = z3.Int(c.fresh("count"))
+            w = z3.Int(c.fresh("w_cnt"))
+            reg_witness(c, w)
+            n_ = arr.length
+            c.assume(z3.And(cnt >= 0, cnt <= zi(n_)))
+            c.assume(z3.Implies(cnt > 0, z3.And(w >= 0, w < zi(n_), zb(bterm(arr.at(w))))))
+            c.universals.append((cnt == 0, lambda i: bnot(bterm(arr.at(i))), n_))
+            return SInt(cnt)
         f = arr.fold("+")
         r = f.at(arr.length)
         if arr.items is None and not f.intkind:
@@ -589,6 +600,7 @@ def install(I):
                 return r
             c = ctx()
             r = z3.Int(c.fresh("argmax"))
+            reg_witness(c, r)
             n = arr.length
             anyv = arr_any(arr)
             c.assume(z3.And(r >= 0, z3.Implies(zi(n) > 0, r < zi(n))))
